@@ -183,7 +183,8 @@ def dynamic_legs(ctx, q):
 
 def run(ctx):
     q = ctx.quick
-    ctx.rule = ("one case = one allocator instance (pmm.Init on a map with 1-3 pools of 1-70 frames) plus: a scripted series of "
+    ctx.rule = ("one case = one allocator instance (every other one through pmm.Init on a sorted map with 1-3 pools of 1-70 frames, the others "
+                "built in-package with pools in descending / unsorted / adjacent / gapped order, tiny and 64k-1/64k/64k+1 frames) plus: a scripted series of "
                 "gate probes covering every return path (G), or one window of 2-16 OS threads x 6 random AllocFrame/FreeFrame calls "
                 "(good, double, unmanaged frees) with call/return events (T-windows), or one ownership-table stress run (T-stress); "
                 "distinct by full event sequence; non-trivial = at least one successful call")
